@@ -357,3 +357,6 @@ if obligation == 'amp_in_unit_interval' and (tot.min() < -1e-9):
 not_reproduced()
 """
     return body
+
+# level text addendum (cases added after the seeded-change rounds)
+LEVEL_TEXT = LEVEL_TEXT + ' Also: firstlast_valid advanced together with a second generator of the same object, splicing amplitudes collected before use.'
